@@ -73,7 +73,7 @@ def gen_scenario(R):
                 out.append(c[:left])
                 left -= len(c)
             chunks = out
-            end = R.choice(["eof", "reset"])
+            end = R.choice(["eof", "reset", "reset", "timedout", "unreach", "bare"])
         else:
             fail_write_at = R.randrange(1, 9)
     return {"kind": "meta", "pool_arg": pool_arg, "pool": pool, "requests": reqs, "chunks": chunks,
@@ -165,6 +165,7 @@ def run_real(scn, choose):
         srv.start()
 
     sock.fail_write_at = scn.get("fail_write_at")
+    sock.fail_write_kind = ["pipe", "reset", "timedout", "unreach", "bare"][(scn.get("fail_write_at") or 0) % 5]
 
     def proxy():
         for c in scn["chunks"]:
